@@ -401,7 +401,8 @@ structure Ctx where
 
 inductive Err
   | bad        -- the code raises (misplaced `!end`/`!else`, no matching `!end`, failing `<...>`)
-  | depth      -- recursion budget of the model exhausted (never for budget >= length of the sequence)
+  | depth      -- recursion budget of the model exhausted (proved impossible for well-nested sequences with budget >= depth:
+               -- `resolveSeq_flatten`; for malformed sequences only observed: never reported with budget = length)
   deriving DecidableEq, Repr, Inhabited
 
 /-- `_prepare_tokens` -/
